@@ -724,6 +724,8 @@ func (o *baseObject) _defineOwnProperty(name unistring.String, existingValue Val
 
 	if descr.Value != nil || descr.Writable != FLAG_NOT_SET {
 		existing.accessor = false
+		existing.getterFunc = nil
+		existing.setterFunc = nil
 	}
 
 	if descr.Getter != nil {
